@@ -11,6 +11,8 @@ Only the *assembly / write-back / totalisation skeleton* is decided (a deliberat
   C02.total     inventories are totalised over all parts: cxxSystem::totalize adds every element-carrying part with
                 coefficient 1 (solution incl. H, O and charge); each entity's totalize() clears its totals and adds every
                 component in one unconditional loop (charge included where the component carries a charge balance)
+  C02.usereset  the cell set-up functions (set_advection, set_transport) set use.<kind>_in(true) where the cell has the kind and
+                use.<kind>_in(false) where it has not: pointer and flag of a kind travel together
   C02.samemodel the `same model` shortcut of prep(): every structure entry save_model stores is compared by check_same_model with an
                 unconditional `!=` against the same source expression (and the lengths are compared); the saved identity reads the names
                 of every class the setup_<kind> functions build unknowns from (solid solution and its components)
@@ -142,6 +144,63 @@ def models_rule(P, R, RULE="C02.models"):
         R.anchor_missing(RULE, "only %d tests on the DDL / CCM surface models found" % n)
 
 
+_CFGS = {}
+
+
+def usereset_rule(P, R):
+    """The `use` record says which parts a cell's calculation contains: per kind a pointer (use.<kind>_ptr) and a flag (use.<kind>_in);
+    copy_use / set_reaction / step read the flag.  The functions that assemble the record for a cell (set_advection, set_transport,
+    set_reaction) handle each kind in an `exists / does not exist` pair of branches.  The two fields travel together: a block that sets
+    the pointer of a kind to NULL also clears that kind's flag (and vice versa a block that installs a pointer sets the flag) - a cell
+    without an exchanger that keeps the flag of the previous cell reacts with a copy of that cell's exchanger."""
+    RULE = "C02.usereset"
+    R.rule(RULE, "set_advection / set_transport: for every kind looked up for the cell, the found branch sets use.<kind>_in(true) and the not-found branch use.<kind>_in(false)", minimum=14)
+    n = 0
+    for q in ("Phreeqc::set_advection", "Phreeqc::set_transport"):
+        fs = [g for g in P.fns_named(q) if g.get("body")]
+        if not fs:
+            R.anchor_missing(RULE, "%s not found" % q)
+            continue
+        f = fs[0]
+        for x in T.walk(f["body"]):
+            if x[0] != "If":
+                continue
+            c = T.strip_casts(x[2])
+            getter = [T.callee_name(k) for k in T.calls(c) if T.callee_name(k).startswith("Get_") and T.callee_name(k).endswith("_ptr")]
+            if len(getter) != 1 or not (c[0] == "Bin" and c[2] in ("!=", "==")):
+                continue
+            kind = getter[0][4:-4]
+            found, absent = (x[3], x[4]) if c[2] == "!=" else (x[4], x[3])
+
+            def flag(br, val):
+                return T.is_node(br) and any(T.callee_name(k) == "Set_%s_in" % kind and k[4] and str(T.strip_casts(k[4][0])[3]) in val for k in T.calls(br))
+            if not flag(found, ("1", "true")):
+                continue            # not a set-up pair (e.g. a later use of the pointer)
+            n += 1
+            inst = "%s:%s@%d" % (q.split("::")[-1], kind, x[1])
+            cleared_before = False
+            if not flag(absent, ("0", "false")):
+                # accepted idiom: the flag is cleared unconditionally before the look-up (a call that dominates this test)
+                if f["q"] not in _CFGS:
+                    cfg = T.CFG(f)
+                    _CFGS[f["q"]] = (cfg, cfg.dominators())
+                cfg, dom = _CFGS[f["q"]]
+                here = [nd["id"] for nd in cfg.nodes if nd["n"] is x[2]]
+                clr = [nd["id"] for nd in cfg.nodes if T.is_node(nd["n"]) and nd["n"][0] == "Call" and T.callee_name(nd["n"]) == "Set_%s_in" % kind
+                       and nd["n"][4] and str(T.strip_casts(nd["n"][4][0])[3]) in ("0", "false")]
+                cleared_before = bool(here) and any(cid in dom.get(here[0], ()) for cid in clr)
+            if flag(absent, ("0", "false")):
+                R.ok(RULE, inst, "found -> in = true, not found -> in = false")
+            elif cleared_before:
+                R.ok(RULE, inst, "flag cleared unconditionally before the look-up; found -> in = true")
+            else:
+                R.violation(RULE, inst, "when cell i has no %s the flag use.%s_in is not cleared: it keeps the value of the previous cell, and copy_use / set_reaction make this cell react "
+                            "with a copy of the previous cell's %s and then discard it - elements are exchanged with a reactant the cell does not have" % (kind, kind, kind),
+                            file=f["file"], line=x[1], function=f["q"])
+    if n < 14:
+        R.anchor_missing(RULE, "only %d found / not-found pairs in the cell set-up functions" % n)
+
+
 def samemodel_rule(P, R):
     """prep() skips build_model() when check_same_model() says the structure of the previous calculation is unchanged; quick_setup()
     then only reloads amounts into the unknowns already built.  A wrong `same` verdict solves one system and stores the result in
@@ -265,6 +324,32 @@ def samemodel_rule(P, R):
             if f.get("body"):
                 rec(f, 1)
         return out
+    # (c) relations: a component related to a phase / kinetic reactant adds coupling terms (build_min_exch, build_min_surface); the getters
+    #     those builders read must be read by save_model AND check_same_model
+    def getters_of(q, cls):
+        out = set()
+        for g in P.fns_named(q):
+            if g.get("body"):
+                for c in T.calls(g["body"]):
+                    cq = T.callee_q(c) or ""
+                    if cq.startswith(cls + "::Get_"):
+                        out.add(cq.split("::")[-1])
+        return out
+    REL = ("Get_phase_name", "Get_rate_name", "Get_phase_proportion")
+    for cls, builder in (("cxxExchComp", "Phreeqc::build_min_exch"), ("cxxSurfaceComp", "Phreeqc::build_min_surface")):
+        need = set(REL) & getters_of(builder, cls)
+        inst = "relation:%s" % cls.replace("cxx", "")
+        if not need:
+            R.anchor_missing(RULE, "%s reads none of %s of %s (extractor change?)" % (builder, REL, cls))
+            continue
+        sv_g, ck_g = getters_of("Phreeqc::save_model", cls), getters_of("Phreeqc::check_same_model", cls)
+        miss = sorted(need - (sv_g & ck_g))
+        if miss:
+            R.violation(RULE, inst, "%s builds coupling terms from %s of a %s, but the saved model identity does not include %s: a calculation whose component is not related (or "
+                        "related differently) is taken for the same model and solved with the previous coupling - sites and elements are lost"
+                        % (builder.split("::")[-1], ", ".join(sorted(need)), cls, ", ".join(miss)), line=ck["line"], **where)
+        else:
+            R.ok(RULE, inst, "%s are part of the saved identity" % ", ".join(sorted(need)))
     saved, checked = named_classes("Phreeqc::save_model"), named_classes("Phreeqc::check_same_model")
     for q in ("Phreeqc::setup_ss_assemblage", "Phreeqc::setup_pure_phases", "Phreeqc::setup_surface"):
         if not P.fns_named(q):
@@ -285,6 +370,7 @@ def samemodel_rule(P, R):
 def run(P, R, tier):
     K = KN.get(P)
     samemodel_rule(P, R)
+    usereset_rule(P, R)
     models_rule(P, R)
     bind_rule(P, R, K)
     stage_rule(P, R)
